@@ -447,6 +447,44 @@ pub fn configs(thorough: bool) -> Vec<Config> {
         "c4 d4 e4",
         "c3 g7 g6",
     ));
+    // 10c. a frozen army with ONE mobile piece that is pushed back and forth by a stronger enemy piece, and a weaker enemy
+    //      piece it can pull: reaches step-3 states where the pass is a third repetition, every own step is frozen
+    //      and the only action left is the completion of a pull (and the states around it)
+    v.push(cfg(
+        "frozen army, one mobile dog: D d5 pushed back by e d6, rabbit e4 can be pulled; C a1 / R h1 frozen by d a2 / c h2",
+        [
+            "               r ",
+            "                 ",
+            "     x e   x     ",
+            "       D         ",
+            "         r       ",
+            "     x     x     ",
+            " d             c ",
+            " C             R ",
+        ],
+        false,
+        "d3 d4 d5",
+        "d6 d5 d4 e4",
+        None,
+    ));
+    // 10d. its colour-swapped twin
+    v.push(cfg(
+        "frozen army, one mobile dog (Silver): d d4 pushed back by E d3, rabbit R e5 can be pulled; c a8 / r h8 frozen by D a7 / C h7",
+        [
+            " c             r ",
+            " D             C ",
+            "     x     x     ",
+            "         R       ",
+            "       d         ",
+            "     x E   x     ",
+            "                 ",
+            "               R ",
+        ],
+        true,
+        "d3 d4 d5 e5",
+        "d6 d5 d4",
+        None,
+    ));
     // 11. repetition play right after a real setup phase (history starts with the entry written by the 32nd placement)
     {
         let mut c = cfg(
@@ -524,7 +562,7 @@ pub fn lasso_pairs(thorough: bool) -> Vec<(usize, usize)> {
 
 /// Gold E walks the perimeter of a 2 x ka rectangle on ranks 2/1, Silver e that of a 2 x kb rectangle on ranks 8/7
 /// (one step and a pass per turn); rabbits parked on h4 / h5.
-pub fn run_lasso(prop: &str, checks: u32, ka: usize, kb: usize, rot: usize, idx: u64) -> FamilyResult {
+pub fn run_lasso(prop: &str, checks: u32, ka: usize, kb: usize, rot: usize, prefix: usize, idx: u64) -> FamilyResult {
     let t0 = Instant::now();
     let ga = ring(6, ka);
     let sb = ring(0, kb);
@@ -547,10 +585,16 @@ pub fn run_lasso(prop: &str, checks: u32, ka: usize, kb: usize, rot: usize, idx:
     let (gi0, si0) = ((rot + 1) / 2, rot / 2);
     board[ga[gi0 % la]] = rm::cell(true, 5);
     board[sb[si0 % lb]] = rm::cell(false, 5);
-    board[sq("h4")] = rm::cell(true, 0);
-    board[sq("h5")] = rm::cell(false, 0);
-    let family = format!("E8 lassos: Gold E round a {}-square ring (a2..), Silver e round a {}-square ring (a8..), one step + pass per turn; cycle of {} turn-start positions walked twice from EVERY one of its positions as root, third entry attempted", la, lb, 2 * lcm);
-    let root = RootInfo { how: if idx % 2 == 1 { RootHow::Parsed } else { RootHow::Constructed }, explorer: "E8", family: family.clone(), idx, board, gold: rot % 2 == 0, move_number: 2, config: serde_json::json!({"ring_gold": la, "ring_silver": lb, "rotation": rot}) };
+    board[sq("h3")] = rm::cell(true, 0);
+    board[sq("h6")] = rm::cell(false, 0);
+    // two cats that make `prefix` irreversible single-step turns before the walk starts (Gold C a4 eastwards, Silver c
+    // h5 westwards): shifts where in the history the cycle's positions fall, so that every alignment is exercised
+    let gold_cat: Vec<usize> = (0..7).map(|f| 4 * 8 + f).collect();
+    let silver_cat: Vec<usize> = (0..7).map(|f| 3 * 8 + 7 - f).collect();
+    board[gold_cat[0]] = rm::cell(true, 1);
+    board[silver_cat[0]] = rm::cell(false, 1);
+    let family = format!("E8 lassos: Gold E round a {}-square ring (a2..), Silver e round a {}-square ring (a8..), one step + pass per turn; cycle of {} turn-start positions walked twice from EVERY one of its positions as root (small rings: after 0..=12 irreversible prefix turns by two cats), third entry attempted", la, lb, 2 * lcm);
+    let root = RootInfo { how: if idx % 2 == 1 { RootHow::Parsed } else { RootHow::Constructed }, explorer: "E8", family: family.clone(), idx, board, gold: rot % 2 == 0, move_number: 2, config: serde_json::json!({"ring_gold": la, "ring_silver": lb, "rotation": rot, "prefix_turns": prefix}) };
     let mut ctx = Ctx::new(checks, prop, &root);
     let mut complete = true;
     let mut note = String::new();
@@ -558,11 +602,25 @@ pub fn run_lasso(prop: &str, checks: u32, ka: usize, kb: usize, rot: usize, idx:
         let mut node = root_node(&root);
         turn_start_oracles(&mut ctx, &node, None);
         let (mut gi, mut si) = (gi0, si0);
-        let total_turns = 4 * lcm; // the root position is occurrence 1; closing the second lap would be its third occurrence
+        let total_turns = prefix + 4 * lcm; // the position after the prefix is occurrence 1; closing the second lap would be its third
+        let (mut gc, mut sc) = (0usize, 0usize);
         let mut third_lap_withheld = 0u64;
         for turn in 0..total_turns {
             let gold = (turn + rot) % 2 == 0;
-            let (from, to) = if gold { (ga[gi % la], ga[(gi + 1) % la]) } else { (sb[si % lb], sb[(si + 1) % lb]) };
+            let in_prefix = turn < prefix;
+            let (from, to) = if in_prefix {
+                if gold {
+                    gc += 1;
+                    (gold_cat[gc - 1], gold_cat[gc])
+                } else {
+                    sc += 1;
+                    (silver_cat[sc - 1], silver_cat[sc])
+                }
+            } else if gold {
+                (ga[gi % la], ga[(gi + 1) % la])
+            } else {
+                (sb[si % lb], sb[(si + 1) % lb])
+            };
             let step = Action::Move(Square::from_index(from as u8), dir_between(from, to));
             // the step
             ctx.stats.states += 1;
@@ -595,10 +653,12 @@ pub fn run_lasso(prop: &str, checks: u32, ka: usize, kb: usize, rot: usize, idx:
                     return;
                 }
             }
-            if gold {
-                gi += 1;
-            } else {
-                si += 1;
+            if !in_prefix {
+                if gold {
+                    gi += 1;
+                } else {
+                    si += 1;
+                }
             }
         }
         ctx.stats.add("e8_third_lap_passes_withheld", third_lap_withheld);
@@ -628,7 +688,10 @@ pub fn run_lassos(prop: &str, checks: u32, thorough: bool) -> Vec<FamilyResult> 
             x
         };
         let cycle = 2 * (la / g * lb);
-        let rs: Vec<FamilyResult> = (0..cycle).into_par_iter().map(|rot| run_lasso(prop, checks, a, b, rot, (pi * 1000 + rot) as u64)).collect();
+        // the small rings additionally with 1..=12 irreversible prefix turns (all alignments of the cycle in the history)
+        let max_prefix = if cycle <= 60 || thorough { 12 } else { 0 };
+        let jobs: Vec<(usize, usize)> = (0..cycle).flat_map(|rot| (0..=max_prefix).map(move |p| (rot, p))).collect();
+        let rs: Vec<FamilyResult> = jobs.par_iter().map(|&(rot, p)| run_lasso(prop, checks, a, b, rot, p, (pi * 100_000 + rot * 100 + p) as u64)).collect();
         // fold the rotations of one ring pair into one family row
         let mut it = rs.into_iter();
         let mut first = it.next().unwrap();
